@@ -54,9 +54,9 @@ SReset ==
   /\ IsEv("Reset")
   /\ LET e == Rec[l] IN
      /\ sid' = e.id
-     /\ cfg' = [kind |-> e.kind, crc |-> e.crc, nblocks |-> e.nblocks, cap |-> Num(e.cap), capp |-> e.cap, a41 |-> e.acmd41, csd |-> e.csd]
+     /\ cfg' = [kind |-> e.kind, crc |-> e.crc, nblocks |-> e.nblocks, cap |-> Num(e.cap), capp |-> e.cap, a41 |-> e.acmd41, csd |-> e.csd, weird |-> e.weird]
      /\ c' = InitCard(e.acmd41)
-     /\ viol' = Report(IF CsdBlocks(e.csd) = Num(e.cap) THEN {} ELSE {<<"TOOL", "Simulator", "capacity of the generated CSD differs from SdCard.CsdBlocks">>})
+     /\ viol' = Report(IF e.weird \/ CsdBlocks(e.csd) = Num(e.cap) THEN {} ELSE {<<"TOOL", "Simulator", "capacity of the generated CSD differs from SdCard.CsdBlocks">>})
   /\ mem' = <<>> /\ exp' = <<>> /\ call' = NoCall /\ seen' = {} /\ needinit' = TRUE /\ first' = TRUE /\ alive' = TRUE
   /\ stuck' = FALSE /\ dl' = <<>> /\ nst' = 0 /\ c14' = FALSE /\ lost' = FALSE
   /\ l' = l + 1
@@ -205,7 +205,7 @@ SRet ==
                    THEN (IF cfg.crc THEN {<<"C13", "CorruptAccepted", "damaged data returned as good although CRC is enabled">>} ELSE {})
                    ELSE {<<"C12", "ReadData", "read returned other blocks than the card stores at that address">>})
              ELSE {})
-       \cup (IF ok /\ call.op \in {"num_blocks", "num_bytes"} /\ (e.val # cfg.capp \/ e.rem # 0) /\ ~Corrupt
+       \cup (IF ok /\ call.op \in {"num_blocks", "num_bytes"} /\ (e.val # cfg.capp \/ e.rem # 0) /\ ~Corrupt /\ ~cfg.weird
              THEN {<<"C12", "Capacity", "reported capacity differs from the CSD register's (structure version " \o ToString(cfg.csd.ver) \o ")">>} ELSE {})
        \cup (IF ok /\ call.op = "card_type" /\ e.e # cfg.kind THEN {<<"C12", "CardKind", "identified " \o e.e \o " for a " \o cfg.kind \o " card">>} ELSE {})
        \cup (IF ok /\ dataop /\ call.blk >= cfg.nblocks /\ ~Faulty
